@@ -316,6 +316,14 @@ func (env *specEnv) binary(e *ast.BinaryExpr) SV {
 					return app(SInt, "tdiv", a, b)
 				case token.REM:
 					return app(SInt, "tmod", a, b)
+				case token.OR, token.AND, token.XOR, token.AND_NOT:
+					// same opaque symbol as the code translation uses in Int mode
+					fn := "bitop_" + sanitize(e.Op.String())
+					if !x.enc.declared[fn] {
+						x.enc.declared[fn] = true
+						x.vc.decl(fmt.Sprintf("(declare-fun %s (Int Int) Int)", fn))
+					}
+					return app(SInt, fn, a, b)
 				}
 			}
 		}
